@@ -696,6 +696,77 @@ func ruleT9(c *Ctx) {
 	c.check(nConv >= 50, "T9", "conversions", token.NoPos, fmt.Sprintf("%d integer conversions inspected, %d between two distinct named types of the package (frozen minimum 50 inspected)", nConv, nBad))
 }
 
+// T10: the first header of a type is recorded whatever it looks like. HdrLst.SetHdr decides on two things only: the
+// slot index computed from the header's Type is in range, and the slot is still Missing(). Any other condition
+// (the value is empty, the name is empty, ...) makes a later header of the type "the first one" although the flag set
+// already has the type.
+func ruleT10(c *Ctx) {
+	fn := c.SFuncs["HdrLst.SetHdr"]
+	if fn == nil || len(fn.Params) < 2 {
+		c.fail("T10", "HdrLst.SetHdr", token.NoPos, "not found")
+		return
+	}
+	n := 0
+	for _, b := range fn.Blocks {
+		iff, ok := b.Instrs[len(b.Instrs)-1].(*ssa.If)
+		if !ok {
+			continue
+		}
+		n++
+		good, why := false, "unrecognised condition"
+		switch x := iff.Cond.(type) {
+		case *ssa.BinOp:
+			// a comparison of the slot index (derived from the Type field only) with a constant / the table length
+			fromType := func(v ssa.Value) bool {
+				ok := false
+				var walk func(v ssa.Value, d int)
+				seenOther := false
+				walk = func(v ssa.Value, d int) {
+					if d > 8 {
+						seenOther = true
+						return
+					}
+					switch y := v.(type) {
+					case *ssa.Const:
+					case *ssa.Convert:
+						walk(y.X, d+1)
+					case *ssa.BinOp:
+						walk(y.X, d+1)
+						walk(y.Y, d+1)
+					case *ssa.UnOp:
+						if fa, isF := y.X.(*ssa.FieldAddr); isF && y.Op == token.MUL {
+							if st := derefStruct(fa.X.Type()); st != nil && st.Field(fa.Field).Name() == "Type" && fa.X == ssa.Value(fn.Params[1]) {
+								ok = true
+								return
+							}
+						}
+						seenOther = true
+					default:
+						seenOther = true
+					}
+				}
+				walk(v, 0)
+				return ok && !seenOther
+			}
+			_, xk := constIntOf(x.X)
+			_, yk := constIntOf(x.Y)
+			if (fromType(x.X) && yk) || (fromType(x.Y) && xk) {
+				good, why = true, "slot index (from Type) against a constant bound"
+			}
+		case *ssa.Call:
+			if cal := x.Call.StaticCallee(); cal != nil && cal.Name() == "Missing" && len(x.Call.Args) == 1 {
+				if ia, ok := x.Call.Args[0].(*ssa.IndexAddr); ok {
+					if fa, ok := ia.X.(*ssa.FieldAddr); ok && fa.X == ssa.Value(fn.Params[0]) {
+						good, why = true, "the table slot is still Missing()"
+					}
+				}
+			}
+		}
+		c.check(good, "T10", fmt.Sprintf("HdrLst.SetHdr:condition#%d", n), iff.Cond.Pos(), "SetHdr decides only on the slot index computed from the header type and on the slot being Missing() ("+why+")")
+	}
+	c.check(n >= 3, "T10", "conditions", fn.Pos(), fmt.Sprintf("%d conditions in HdrLst.SetHdr (frozen minimum 3)", n))
+}
+
 func init() {
 	register(&PropDef{
 		ID: "C07",
@@ -705,6 +776,7 @@ func init() {
 			{"T3", "the flag word has a bit for every header type, HdrOther is the largest type, the first-of-type table has HdrOther-1 slots indexed Type-1 and keeps the first header of a type", ruleT3},
 			{"T5", "line-end accounting in every streaming caller: on every path from an end-of-header verdict of a line-end skipper (offset, line-end length, verdict) to a return with a completing verdict, the returned offset is that call's offset plus that call's line-end length (phis resolved by the edge taken), never a guessed length", ruleT5},
 			{"T6", "exact byte sets of the scanners header names and generic values are cut with (shared with C08-S5): skipTokenDelim, skipToken, skipWS, skipLine", func(c *Ctx) { scannerSets(c, "T6") }},
+			{"T10", "the first header of a type is recorded whatever it looks like: every condition in HdrLst.SetHdr is a range test of the slot index computed from the header's Type alone, or Missing() of that table slot; an empty value or name is no reason to skip the first occurrence", ruleT10},
 			{"T9", "a header type is not a flag: no value of one named integer type of the package (HdrT, HdrFlags, OffsT, ErrorHdr, SIPMethod, ...) is converted directly to another one; the flag of a header type exists only as 1 << type inside HdrFlags.Set/Test, so the type-flag set and the first-of-type lookup are indexed consistently", ruleT9},
 			{"T8", "the automaton extracted from ParseHdrLine equals the reviewed reference table (ref/ParseHdrLine.txt): for every state and byte class the next state or exit, the verdict set, the field actions with their arguments (locals other than the scan index abstracted) and the returned offset; a transition that loses an action, changes target, verdict or byte class shows up as a missing and an extra row", func(c *Ctx) { fsmRefRule(c, "T8", "ParseHdrLine") }},
 			{"T7", "the empty line that ends the block, from the extracted ParseHdrLine automaton in its initial state: lone LF -> (index+1, empty) with no callee and no look-ahead; CR LF -> (index+2, empty); CR other -> (index+1, empty); CR as last byte may ask for more; no other first byte yields empty", ruleT7},
